@@ -34,7 +34,10 @@ def determinism(argv) -> int:
         for workers, hashseed, seed in ((16, "0", 7), (5, "12345", 7)):
             with tempfile.NamedTemporaryFile(suffix=".json", delete=False) as fh:
                 path = fh.name
-            env = dict(os.environ, PYTHONHASHSEED=hashseed, VERIF_SEED=str(seed), VERIF_BUDGET_S="3000")
+            # the second batch also drops jax's compilation caches after *every* run
+            # (worker._bound_memory), the first one practically never: cache contents must not matter
+            env = dict(os.environ, PYTHONHASHSEED=hashseed, VERIF_SEED=str(seed), VERIF_BUDGET_S="3000",
+                       VERIF_RSS_GROWTH_MB="512" if workers == 16 else "0")
             r = subprocess.run([sys.executable, "-W", "ignore", os.path.join(VERIF, "simkit", "cli.py"), prop, "--runs", str(n), "--workers", str(workers),
                                 "--no-evidence", "--dump-digests", path], capture_output=True, text=True, env=env, cwd=VERIF)
             if r.returncode == 2:
